@@ -186,6 +186,19 @@ def cpuCProp (ev : Ev) (ops : List AOp) (levels : List (Nat × Nat)) (sims : Nat
 def gpuCProp (ev : Ev) (ops : List AOp) (levels : List (Nat × Nat)) (sims bx by_ : Nat) (S : Nat → LaneSt) : Nat → LaneSt :=
   levels.foldl (fun S lv => gpuLevel ev ops lv.1 lv.2 sims bx by_ S) S
 
+/-- delay data-set selection of `_wave_eval` (wave_sim.py:165-176) for one lane: `nsets = len(delays)`, `mode = simctl_int[1, sim]`,
+    `simctl0 = simctl_int[0, sim]`, `seed` = the argument of `c_prop`. One data set: always index 0. Several: mode 0 = `delays[seed]`,
+    mode 1 = `delays[simctl_int[0, sim]]`. `none` = outside the model: an index `≥ nsets` (Python: IndexError; compiled: out of
+    bounds), an empty `delays`, negative values (Python wraps them), and mode ≥ 2 (pseudo-random choice per gate from
+    `seed`, the output index and `simctl0`: not modelled). Tied to the code by the driver command `wio-dataset` (harness/c06.py,
+    clause `wave-dataset`: the index the real `_wave_eval` applies to `delays`, recorded per lane incl. mixed per-lane modes). -/
+def selectDataset (nsets : Nat) (mode seed simctl0 : Nat) : Option Nat :=
+  if nsets = 0 then none
+  else if nsets = 1 then some 0
+  else if mode = 0 then (if seed < nsets then some seed else none)
+  else if mode = 1 then (if simctl0 < nsets then some simctl0 else none)
+  else none
+
 /-! ## reading and writing waveforms in memory -/
 /-- `t >= TMAX` -/
 def isEnd : T → Bool
